@@ -15,6 +15,7 @@ JOBS = [
     ("consts2v.py", "Gen/ConstsGen.v"),
     ("py2v_iter.py", "Gen/IterBook.v"),
     ("py2v_diag.py", "Gen/DiagGen.v"),
+    ("py2v_design.py", "Gen/DesignGen.v"),
 ]
 if __name__ == "__main__":
     repo, coq = sys.argv[1], sys.argv[2]
